@@ -581,3 +581,6 @@ Definition pvNewBlock1_onebyte (B A buffer : Z) : outcome Z :=
 Lemma block1_onebyte_refuted :
   exists B A buffer, 1 <= A <= 1024 /\ 0 < B /\ 0 < buffer /\ buffer mod (gran A) = 0 /\ pvNewBlock1_onebyte B A buffer = Stuck.
 Proof. exists 8, 512, 16. vm_compute. repeat split; intros; discriminate. Qed.
+
+Lemma legal_example : legal 32 24 8.
+Proof. unfold legal. rewrite two63. repeat split; try lia; vm_compute; congruence. Qed.
